@@ -165,11 +165,28 @@ def _len(x):
 
 
 # ------------------------------------------------------------------ run one response
-def run_response(iface: str, method: str, size, chunk, range_hdr: Optional[str], if_range: Optional[str], ctype: str, K: int):
-    """Run the real FileResponse on the symbolic file. Returns (status, headers list[(str,str)], body items, extra)."""
+def response_class(iface: str, subclass: bool = False):
+    """the stock FileResponse, or a subclass that overrides the documented generate_etag hook (its tag is what the response sends)"""
+    base = W.FileResponse if iface == "wsgi" else A.FileResponse
+    if not subclass:
+        return base
+
+    class Tagged(base):  # type: ignore[misc, valid-type]
+        @staticmethod
+        def generate_etag(stat_result):
+            return "v2-" + R.FileResponseMixin.generate_etag(stat_result)
+    return Tagged
+
+
+def run_response(iface: str, method: str, size, chunk, range_hdr: Optional[str], if_range: Optional[str], ctype: str, K: int, resp=None, earlier=None):
+    """Run the real FileResponse on the symbolic file. Returns (status, headers list[(str,str)], body items, extra).
+    earlier: Range header of a request the SAME response object answered before (a FileResponse mounted as an application serves many)."""
     st = Stat(size)
+    if resp is None:
+        resp = (W if iface == "wsgi" else A).FileResponse("/d/file.bin", content_type=ctype, stat_result=st, chunk_size=chunk)
+    if earlier is not None:
+        run_response(iface, "GET", size, chunk, earlier, None, ctype, K, resp=resp)
     if iface == "wsgi":
-        resp = W.FileResponse("/d/file.bin", content_type=ctype, stat_result=st, chunk_size=chunk)
         env = {"REQUEST_METHOD": method}
         if range_hdr is not None:
             env["HTTP_RANGE"] = range_hdr
@@ -190,7 +207,6 @@ def run_response(iface: str, method: str, size, chunk, range_hdr: Optional[str],
         scope["headers"].append((b"if-range", if_range.encode("latin-1")))
     if iface == "asgi-zc":
         scope["extensions"] = {"http.response.zerocopysend": {}}
-    resp = A.FileResponse("/d/file.bin", content_type=ctype, stat_result=st, chunk_size=chunk)
     sent: List[Dict[str, Any]] = []
 
     async def send(m):
@@ -350,7 +366,7 @@ def check_path(e: Engine, job, out, size, specs_sym, etag_ok: bool):
     opaque = job["family"] == "data"
     x = z3.Int("x")
     sz = term_of(size)
-    want_range = job["forms"] is not None and job["if_range"] in (None, "etag", "lastmod")
+    want_range = job["forms"] is not None and job["if_range"] in (None, "etag", "lastmod") and not job.get("reuse")
     for k, v in headers:
         if not isinstance(k, str) or not isinstance(v, str):
             raise Fail("non-str-header")
@@ -364,6 +380,8 @@ def check_path(e: Engine, job, out, size, specs_sym, etag_ok: bool):
         must(e, text_term(e, cl[0], "content-length") == sz, "content-length!=size")
         if hdr(headers, "content-range"):
             raise Fail("content-range-on-200")
+        if ctl != [job["ctype"]]:
+            raise Fail("content-type-not-the-files", f"{ctl!r} on a 200 for a file of type {job['ctype']!r}")
         if head:
             must(e, total_len(e, body) == 0, "head-with-body")
             return "200"
@@ -428,6 +446,8 @@ def check_path(e: Engine, job, out, size, specs_sym, etag_ok: bool):
     inres = z3.Or([z3.And(s <= x, x < en) for s, en, _ in rngs])
     must(e, inres == inspec, "bytes-sent!=bytes-requested")
     if not multi:
+        if ctl != [job["ctype"]]:
+            raise Fail("content-type-not-the-files", f"{ctl!r} on a single-range 206 for a file of type {job['ctype']!r}")
         if len(rngs) != 1:
             raise Fail("single-range-shape")
         cr = hdr(headers, "content-range")
@@ -473,7 +493,7 @@ def check_path(e: Engine, job, out, size, specs_sym, etag_ok: bool):
 
 
 # ------------------------------------------------------------------ concrete replay on a real file
-def concrete_run(iface, method, size, chunk, range_hdr, if_range_kind, ctype):
+def concrete_run(iface, method, size, chunk, range_hdr, if_range_kind, ctype, reuse=False, subclass=False):
     """Unshimmed real FileResponse on a real temp file. Returns (status, headers, body bytes, problems list)."""
     import tempfile
     data = bytes((i * 7 + 3) % 251 for i in range(size))
@@ -485,13 +505,18 @@ def concrete_run(iface, method, size, chunk, range_hdr, if_range_kind, ctype):
         st = _os.stat(p)
         if_range = None
         if if_range_kind == "etag":
+            if_range = '"' + response_class(iface, subclass).generate_etag(st) + '"'
+        elif if_range_kind == "stock-etag":
             if_range = '"' + R.FileResponseMixin.generate_etag(st) + '"'
         elif if_range_kind == "lastmod":
             if_range = formatdate(st.st_mtime, usegmt=True)
         elif if_range_kind is not None:
             if_range = IF_RANGE_TEXT[if_range_kind]
         if iface == "wsgi":
-            resp = W.FileResponse(p, content_type=ctype, chunk_size=chunk)
+            resp = response_class("wsgi", subclass)(p, content_type=ctype, chunk_size=chunk)
+            if reuse:
+                b"".join(resp({"REQUEST_METHOD": "GET", "HTTP_RANGE": range_hdr}, lambda s_, h_, e_=None: None))
+                range_hdr = None
             env = {"REQUEST_METHOD": method}
             if range_hdr is not None:
                 env["HTTP_RANGE"] = range_hdr
@@ -510,7 +535,16 @@ def concrete_run(iface, method, size, chunk, range_hdr, if_range_kind, ctype):
                 scope["headers"].append((b"if-range", if_range.encode()))
             if iface == "asgi-zc":
                 scope["extensions"] = {"http.response.zerocopysend": {}}
-            resp = A.FileResponse(p, content_type=ctype, chunk_size=chunk)
+            resp = response_class("asgi", subclass)(p, content_type=ctype, chunk_size=chunk)
+            if reuse:
+                async def _drop(m_):
+                    pass
+
+                async def _gone():
+                    return {"type": "http.disconnect"}
+                asyncio.run(resp({"type": "http", "method": "GET", "headers": [(b"range", range_hdr.encode())]}, _gone, _drop))
+                scope["headers"] = [h_ for h_ in scope["headers"] if h_[0] != b"range"]
+                range_hdr = None
             sent = []
 
             async def send(m):
@@ -545,10 +579,12 @@ class _Protocol(Exception):
     pass
 
 
-def concrete_problem(iface, method, size, chunk, range_hdr, if_range_kind, ctype) -> Optional[str]:
+def concrete_problem(iface, method, size, chunk, range_hdr, if_range_kind, ctype, reuse=False, subclass=False) -> Optional[str]:
     """Independent concrete oracle for one request (used for replay and counterexample confirmation)."""
     try:
-        status, headers, body, data = concrete_run(iface, method, size, chunk, range_hdr, if_range_kind, ctype)
+        status, headers, body, data = concrete_run(iface, method, size, chunk, range_hdr, if_range_kind, ctype, reuse, subclass)
+        if reuse:
+            range_hdr = None
     except _Protocol as ex:
         return f"ASGI event sequence: {ex}"
     except Exception as ex:  # noqa: BLE001
@@ -586,6 +622,10 @@ def concrete_problem(iface, method, size, chunk, range_hdr, if_range_kind, ctype
             exp_body += f"--{h.get('content-type', '').split('boundary=')[-1]}--\n".encode()
     if status != exp_status:
         return f"status {status} != {exp_status}"
+    if status == 200 and "content-range" in h:
+        return f"content-range {h['content-range']!r} on a 200"
+    if (status == 200 or (status == 206 and len(runs) == 1)) and h.get("content-type") != ctype:
+        return f"content-type {h.get('content-type')!r} on a {status} for a file of type {ctype!r}"
     if "content-length" not in h:
         return "no content-length"
     if method == "HEAD":
@@ -645,8 +685,19 @@ def run_job(job) -> report.JobResult:
             if_range = 'W/"' + R.FileResponseMixin.generate_etag(st) + '"'
         elif ifk == "unquoted":
             if_range = R.FileResponseMixin.generate_etag(st)
+        elif ifk == "stock-etag":  # the tag the stock class would send: not a current validator of a subclass with its own tags
+            if_range = '"' + R.FileResponseMixin.generate_etag(st) + '"'
         elif ifk is not None:
             if_range = IF_RANGE_TEXT[ifk]
+        if job.get("subclass"):
+            Cls = response_class(job["iface"], True)
+            if ifk == "etag":
+                if_range = '"' + Cls.generate_etag(st) + '"'
+            resp = Cls("/d/file.bin", content_type=job["ctype"], stat_result=st, chunk_size=chunk)
+            return run_response(job["iface"], job["method"], size, chunk, range_hdr, if_range, job["ctype"], K, resp=resp)
+        if job.get("reuse"):
+            # the same response object answered a (possibly multi-range) request before; now a plain request
+            return run_response(job["iface"], job["method"], size, chunk, None, None, job["ctype"], K, earlier=range_hdr)
         return run_response(job["iface"], job["method"], size, chunk, range_hdr, if_range, job["ctype"], K)
 
     def on_path(e, r):
@@ -668,7 +719,7 @@ def run_job(job) -> report.JobResult:
                         "non-str-header", "data-outside-part", "stray-newline", "part-without-data", "unexpected-literal-bytes",
                         "file-data-on-error-response", "head-with-file-data", "content-range-on-200", "content-range-on-multipart",
                         "multipart-final-boundary", "multipart-with-one-part", "multipart-boundary-param", "416-without-content-range",
-                        "zero-copy-multiple-messages-per-range", "zero-copy-missing-offset-count"):
+                        "zero-copy-multiple-messages-per-range", "zero-copy-missing-offset-count", "content-type-not-the-files"):
                     e.check()
         if klass is None:
             e.check()
@@ -676,14 +727,14 @@ def run_job(job) -> report.JobResult:
         sz = m.eval(size_v, True).as_long()
         ch = m.eval(chunk_v, True).as_long()
         hdr_txt = C3.header_of(forms, [m.eval(a, True).as_long() for a in Av], [m.eval(b, True).as_long() for b in Bv]) if forms else job.get("raw_range")
-        wit = {"iface": job["iface"], "method": job["method"], "size": sz, "chunk_size": ch, "range": hdr_txt, "if_range": ifk, "content_type": job["ctype"]}
+        wit = {"iface": job["iface"], "method": job["method"], "size": sz, "chunk_size": ch, "range": hdr_txt, "if_range": ifk, "content_type": job["ctype"], "reuse": bool(job.get("reuse")), "subclass": bool(job.get("subclass"))}
         small = sz <= 200000
         if klass is not None:
             reproduced: Optional[bool] = None
             cp = None
             if small:
                 with shims.off():
-                    cp = concrete_problem(job["iface"], job["method"], sz, ch, hdr_txt, ifk_concrete(ifk), job["ctype"])
+                    cp = concrete_problem(job["iface"], job["method"], sz, ch, hdr_txt, ifk_concrete(ifk), job["ctype"], bool(job.get("reuse")), bool(job.get("subclass")))
                 reproduced = cp is not None
             if twin:
                 reproduced = True
@@ -692,7 +743,7 @@ def run_job(job) -> report.JobResult:
         res.kind(outcome)
         if small and (res["validated"] < 40 or res["paths"] % 7 == 0):
             with shims.off():
-                cp = concrete_problem(job["iface"], job["method"], sz, ch, hdr_txt, ifk_concrete(ifk), job["ctype"])
+                cp = concrete_problem(job["iface"], job["method"], sz, ch, hdr_txt, ifk_concrete(ifk), job["ctype"], bool(job.get("reuse")), bool(job.get("subclass")))
             if cp is not None:
                 res["harness_errors"].append(f"path holds symbolically but the real code fails concretely: {wit} -> {cp}")
             res["validated"] += 1
@@ -732,6 +783,15 @@ def jobs(tier: str):
                     out.append(dict(name=name, family="data", iface=iface, method=method, forms=forms, if_range=ifk,
                                     ctype="text/plain", K=K, weight=(9 ** k) * (3 if iface == "asgi" else 1)))
         # octet-stream adds content-disposition (download name) to the framing
+        # a subclass with its own ETag scheme: If-Range is judged against the tag the response really sends
+        for ifk in ("etag", "stock-etag", None):
+            out.append(dict(name=f"data/{iface}/GET/ab/subclass-etag/if-{ifk}", family="data", iface=iface, method="GET", forms=["ab"], if_range=ifk,
+                            ctype="text/plain", K=K, subclass=True, weight=30))
+        # one FileResponse object mounted as an application: a plain request after it answered a (multi-)range request
+        for method in ("GET", "HEAD"):
+            for forms in (["ab", "ab"], ["a-", "-b"], ["ab"]):
+                out.append(dict(name=f"data/{iface}/{method}/norange-after:{','.join(forms)}", family="data", iface=iface, method=method, forms=forms, if_range=None,
+                                ctype="text/plain", K=K, reuse=True, weight=90))
         out.append(dict(name=f"data/{iface}/GET/ab/octet", family="data", iface=iface, method="GET", forms=["ab"], if_range=None,
                         ctype="application/octet-stream", K=K))
     # framing family: digit-exact multipart Content-Length
@@ -752,6 +812,6 @@ def jobs(tier: str):
 
 def replay(rec) -> int:
     w = rec["witness"]
-    cp = concrete_problem(w["iface"], w["method"], w["size"], w["chunk_size"], w["range"], ifk_concrete(w["if_range"]), w["content_type"])
+    cp = concrete_problem(w["iface"], w["method"], w["size"], w["chunk_size"], w["range"], ifk_concrete(w["if_range"]), w["content_type"], bool(w.get("reuse")), bool(w.get("subclass")))
     print(f"replay C02: {w} -> {cp}")
     return 1 if cp else 0
